@@ -155,4 +155,243 @@ theorem struct_mgrCheck {P : Program} {depth : Node → Nat} (hp : LiveP P depth
       have h0 : s.tasks[0]? = some tkt := by rw [← ht0]; exact htkt
       exact hs.main tkt h0 hf0
 
+
+/-! ### the environment's steps: a node body finishes, a retry timer fires -/
+
+/-- waits that the environment ends -/
+def Wait.isExt : Wait → Bool
+  | .gate _ _ _ _ => true
+  | .sleep _ _ _ _ => true
+  | _ => false
+
+theorem LaunchSt.not_ext {P : Program} {s : St} {tk : Task} {F : Frame} (h : LaunchSt P s tk F) {w : Wait}
+    (hb : tk.st = .blocked w) (hw : w.isExt = true) : False := by
+  cases F with
+  | dagInit d => obtain ⟨rv, h⟩ := h; rw [h] at hb; cases hb
+  | dagLaunch d l =>
+    cases l with
+    | nil => exact h
+    | cons m r =>
+      rcases h.2 with ⟨rv, h⟩ | ⟨h, _⟩ <;> rw [h] at hb <;> cases hb
+      simp [Wait.isExt] at hw
+  | dagWaitDest d =>
+    rcases h with ⟨rv, h⟩ | h <;> rw [h] at hb <;> cases hb
+    simp [Wait.isExt] at hw
+  | _ => exact h
+
+/-- only a node task that executes its node waits for the environment -/
+theorem ext_wait_is_exec {P : Program} {depth : Node → Nat} {s : St} {tk : Task} (h : TaskOK P depth s tk) {w : Wait}
+    (hb : tk.st = .blocked w) (hw : w.isExt = true) :
+    ∃ d q pc, tk.name = .node q ∧ P.g.isSwitch q = false ∧ tk.frames = [.node d q false pc] ∧ pc ≠ .start ∧
+      pc ≠ .evWait ∧ s.proc q = true ∧ s.res q = none ∧ pc.rests = true := by
+  cases h with
+  | callerStart hn hfr hst hlen => obtain ⟨rv, h⟩ := hst; rw [h] at hb; cases hb
+  | callerWait hn hfr hst =>
+    rcases hst with ⟨rv, h⟩ | ⟨h, _⟩ <;> rw [h] at hb <;> cases hb
+    simp [Wait.isExt] at hw
+  | main F d0 hn hfr hdf hdag hdest hout hst => exact (hst.not_ext hb hw).elim
+  | mainDone hn hfr hst hres => rw [hst] at hb; cases hb
+  | nodeStart d0 q hn hns hfr hst => rw [hst] at hb; cases hb
+  | nodeWait d0 q hn hns hfr hst hproc =>
+    rcases hst with ⟨⟨rv, h⟩, _⟩ | h <;> rw [h] at hb <;> cases hb
+    simp [Wait.isExt] at hw
+  | nodeExec d0 q pc hn hns hfr hpc1 hpc2 hlive hproc hnores hrests => exact ⟨d0, q, pc, hn, hns, hfr, hpc1, hpc2, hproc, hnores, hrests⟩
+  | nodeDone q r0 hn hns hfr hst hnc hev => rw [hst] at hb; cases hb
+  | swStart d0 S0 hn hsS hfr hno1 hst => rw [hst] at hb; cases hb
+  | swIn F sub d0 S0 hn hsS hfr hdf hsub hst => exact (hst.not_ext hb hw).elim
+  | swRet d0 S0 hn hsS hfr hst hsw => obtain ⟨v, h⟩ := hst; rw [h] at hb; cases hb
+  | swDone S0 r0 hn hsS hfr hst hnc hok => rw [hst] at hb; cases hb
+
+/-- a task after a step of the environment -/
+structure EnvTask (tk tk' : Task) : Prop where
+  frames : tk'.frames = tk.frames
+  name   : tk'.name = tk.name
+  cancel : tk'.mustCancel = tk.mustCancel
+  st     : tk'.st = tk.st ∨ ∃ w, tk.st = .blocked w ∧ w.isExt = true ∧ ∃ rv, tk'.st = .runnable rv
+
+/-- a step of the environment: storage is untouched, some waits for a body or a timer end -/
+structure Env (s s' : St) : Prop where
+  res     : s'.res = s.res
+  resHid  : s'.resHid = s.resHid
+  proc    : s'.proc = s.proc
+  procHid : s'.procHid = s.procHid
+  sw      : s'.sw = s.sw
+  evSet   : s'.evSet = s.evSet
+  len     : s'.tasks.length = s.tasks.length
+  task    : ∀ (i : Nat) (tk : Task), s.tasks[i]? = some tk → ∃ tk', s'.tasks[i]? = some tk' ∧ EnvTask tk tk'
+
+theorem Env.back {s s' : St} (e : Env s s') {i : Nat} {tk' : Task} (h : s'.tasks[i]? = some tk') :
+    ∃ tk, s.tasks[i]? = some tk ∧ EnvTask tk tk' := by
+  have hlt : i < s.tasks.length := by rw [← e.len]; exact getElem?_lt h
+  obtain ⟨tk'', h1, h2⟩ := e.task i s.tasks[i] (List.getElem?_eq_getElem hlt)
+  rw [h] at h1; cases h1
+  exact ⟨_, List.getElem?_eq_getElem hlt, h2⟩
+
+theorem EnvTask.live {tk tk' : Task} (e : EnvTask tk tk') (h : tk.live) : tk'.live := by
+  rcases e.st with h1 | ⟨w, _, _, hr⟩
+  · unfold Task.live at *; rw [h1]; exact h
+  · exact Or.inl hr
+
+theorem EnvTask.nonDone {tk tk' : Task} (e : EnvTask tk tk') (h : tk.nonDone) : tk'.nonDone := by
+  intro r hr
+  rcases e.st with h1 | ⟨w, _, _, rv, hr'⟩
+  · rw [h1] at hr; exact h r hr
+  · rw [hr'] at hr; cases hr
+
+theorem EnvTask.done_iff {tk tk' : Task} (e : EnvTask tk tk') (r : TaskRes) : tk'.st = .done r ↔ tk.st = .done r := by
+  rcases e.st with h1 | ⟨w, hw, _, rv, hr'⟩
+  · rw [h1]
+  · rw [hr', hw]; constructor <;> intro h <;> cases h
+
+/-- a task that does not wait for the environment is left alone -/
+theorem EnvTask.toExt {tk tk' : Task} (e : EnvTask tk tk') (s' : St) (h : tk'.st = tk.st) : TaskExt s' tk tk' :=
+  ⟨e.frames, e.name, e.cancel, Or.inl h⟩
+
+theorem Executor.env {s s' : St} (e : Env s s') {n : Node} (h : Executor s n) : Executor s' n := by
+  obtain ⟨i, tk, hi, hl, d, f, pc, hf, hpc⟩ := h
+  obtain ⟨tk', hi', te⟩ := e.task i tk hi
+  exact ⟨i, tk', hi', te.live hl, d, f, pc, by rw [te.frames]; exact hf, hpc⟩
+
+theorem SwOwner.env {s s' : St} (e : Env s s') {S : Node} (h : SwOwner s S) : SwOwner s' S := by
+  obtain ⟨i, tk, hi, hnd, hf⟩ := h
+  obtain ⟨tk', hi', te⟩ := e.task i tk hi
+  exact ⟨i, tk', hi', te.nonDone hnd, by rw [te.frames]; exact hf⟩
+
+theorem Launched.env {P : Program} {s s' : St} (e : Env s s') {q : Node} (h : Launched P s q) : Launched P s' q := by
+  unfold Launched at *
+  split
+  · next hq =>
+    simp only [hq, if_true] at h
+    obtain ⟨i, tk, hi, hn⟩ := h
+    obtain ⟨tk', hi', te⟩ := e.task i tk hi
+    exact ⟨i, tk', hi', by rw [te.name]; exact hn⟩
+  · next hq =>
+    simp only [hq] at h
+    rcases h with h | ⟨i, tk, d, hi, hf, hst⟩
+    · exact Or.inl (by rw [e.proc]; exact h)
+    · obtain ⟨tk', hi', te⟩ := e.task i tk hi
+      refine Or.inr ⟨i, tk', d, hi', by rw [te.frames]; exact hf, ?_⟩
+      rcases te.st with h1 | ⟨w, hw, _, _⟩
+      · rw [h1]; exact hst
+      · rw [hst] at hw; cases hw
+
+theorem taskErrors_env {s s' : St} (e : Env s s') (x : Exc) : x ∈ taskErrors s' ↔ x ∈ taskErrors s := by
+  rw [mem_taskErrors_iff, mem_taskErrors_iff]
+  constructor
+  · rintro ⟨i, tk', hi, hd⟩
+    obtain ⟨tk, h1, te⟩ := e.back hi
+    exact ⟨i, tk, h1, (te.done_iff _).mp hd⟩
+  · rintro ⟨i, tk, hi, hd⟩
+    obtain ⟨tk', h1, te⟩ := e.task i tk hi
+    exact ⟨i, tk', h1, (te.done_iff _).mpr hd⟩
+
+theorem taskErrors_env_nil {s s' : St} (e : Env s s') : taskErrors s' = [] ↔ taskErrors s = [] := by
+  constructor
+  · intro h
+    apply List.eq_nil_iff_forall_not_mem.mpr
+    intro x hx
+    have := (taskErrors_env e x).mpr hx
+    rw [h] at this; cases this
+  · intro h
+    apply List.eq_nil_iff_forall_not_mem.mpr
+    intro x hx
+    have := (taskErrors_env e x).mp hx
+    rw [h] at this; cases this
+
+/-- **the environment's steps preserve the invariant** -/
+theorem struct_env {P : Program} {depth : Node → Nat} {s s' : St} (hs : Struct P depth s) (e : Env s s') :
+    Struct P depth s' := by
+  have hd := hs.data
+  have hL : ∀ q, Launched P s q → Launched P s' q := fun q h => h.env e
+  refine ⟨⟨?_, ?_, ?_, ?_, ?_, ?_, ?_, ?_, ?_, ?_, ?_⟩, ?_, ?_, ?_⟩
+  · intro n; rw [e.resHid, e.procHid]; exact hd.noHid n
+  · intro n v h; rw [e.res] at h; exact hd.noRec n v h
+  · intro n hn
+    rw [e.proc] at hn
+    rcases hd.c1 n hn with h | h
+    · exact Or.inl (by rw [e.evSet]; exact h)
+    · exact Or.inr (h.env e)
+  · intro n hn
+    rw [e.evSet] at hn
+    rcases hd.c4 n hn with h | h
+    · exact Or.inl (by rw [e.res]; exact h)
+    · exact Or.inr (fun h' => h ((taskErrors_env_nil e).mp h'))
+  · intro n hn; rw [e.res] at hn; rw [e.evSet]; exact hd.c5 n hn
+  · intro S l c h; rw [e.sw] at h; exact hd.swEdge S l c h
+  · intro S lc h
+    rw [e.sw] at h
+    rw [switchSelect_congr e.res e.resHid]
+    exact hd.swSel S lc h
+  · intro n hn; rw [e.res] at hn; rw [e.proc]; exact hd.c6 n hn
+  · intro n hn; rw [e.proc] at hn; exact hd.procPlain n hn
+  · intro i j ti tj q d1 d2 f1 f2 p1 p2 hi hj hfi hfj hp1 hp2
+    obtain ⟨ti0, hi0, tei⟩ := e.back hi
+    obtain ⟨tj0, hj0, tej⟩ := e.back hj
+    exact hd.uniq i j ti0 tj0 q d1 d2 f1 f2 p1 p2 hi0 hj0 (by rw [← tei.frames]; exact hfi) (by rw [← tej.frames]; exact hfj)
+      hp1 hp2
+  · intro tk htk
+    obtain ⟨i, hi, hieq⟩ := List.getElem_of_mem htk
+    have hget : s'.tasks[i]? = some tk := by rw [List.getElem?_eq_getElem hi, hieq]
+    obtain ⟨tk0, h0, te⟩ := e.back hget
+    rw [te.cancel]
+    exact hd.noCancel tk0 (List.mem_of_getElem? h0)
+  · intro i tk' hi
+    obtain ⟨tk, h0, te⟩ := e.back hi
+    have hok := hs.tasks i tk h0
+    rcases te.st with hsame | ⟨w, hw, hext, hr⟩
+    · have hl1 : s.tasks.length ≠ 1 ∨ (s'.tasks.length = 1 ∧ s'.proc = s.proc ∧ s'.evSet = s.evSet ∧ s'.sw = s.sw) := by
+        by_cases hl : s.tasks.length = 1
+        · exact Or.inr ⟨by rw [e.len]; exact hl, e.proc, e.evSet, e.sw⟩
+        · exact Or.inl hl
+      refine TaskOK.transport (te.toExt s' hsame) hok hl1
+        (fun n v h => by rw [e.res]; exact h) (fun S lc h => by rw [e.sw]; exact h) (fun n h => by rw [e.proc]; exact h)
+        (fun n h => by rw [e.evSet]; exact h) hL ?_ ?_ ?_
+      · intro he0 hr0
+        exact Or.inl ⟨(taskErrors_env_nil e).mpr he0, by rw [e.res]; exact hr0⟩
+      · intro d m hrec hb hrd hold
+        rw [ready_congr e.res e.resHid e.sw] at hrd
+        obtain ⟨S, hS, hSs, ho⟩ := hold hrd
+        exact ⟨S, hS, hSs, ho.env e⟩
+      · intro d q pc _ _ _ h; rw [e.res]; exact h
+    · obtain ⟨d, q, pc, hn, hns, hfr, hpc1, hpc2, hproc, hnores, hrests⟩ := ext_wait_is_exec hok hw hext
+      exact .nodeExec tk' d q pc (by rw [te.name]; exact hn) hns (by rw [te.frames]; exact hfr) hpc1 hpc2 (Or.inl hr)
+        (by rw [e.proc]; exact hproc) (by rw [e.res]; exact hnores) hrests
+  · obtain ⟨tk0, h0, hn0⟩ := hs.caller
+    obtain ⟨tk', h1, te⟩ := e.task 0 tk0 h0
+    exact ⟨tk', h1, by rw [te.name]; exact hn0⟩
+  · intro tk' h0 hf
+    obtain ⟨tk, h1, te⟩ := e.back h0
+    obtain ⟨tk1, h2, hn1⟩ := hs.main tk h1 (by rw [← te.frames]; exact hf)
+    obtain ⟨tk1', h3, te1⟩ := e.task 1 tk1 h2
+    exact ⟨tk1', h3, by rw [te1.name]; exact hn1⟩
+
+theorem EnvTask.refl (tk : Task) : EnvTask tk tk := ⟨rfl, rfl, rfl, Or.inl rfl⟩
+
+theorem envTask_gateDone (n inv att : Nat) (tk : Task) : EnvTask tk (gateDone n inv att tk) := by
+  unfold gateDone
+  split
+  · next n' i' a' o hst =>
+    split
+    · exact ⟨rfl, rfl, rfl, Or.inr ⟨_, hst, rfl, _, rfl⟩⟩
+    · exact EnvTask.refl tk
+  · exact EnvTask.refl tk
+
+theorem env_gate (s : St) (n inv att : Nat) : Env s { s with tasks := s.tasks.map (gateDone n inv att) } := by
+  refine ⟨rfl, rfl, rfl, rfl, rfl, rfl, by simp, ?_⟩
+  intro i tk hi
+  exact ⟨gateDone n inv att tk, by simp [List.getElem?_map, hi], envTask_gateDone n inv att tk⟩
+
+theorem env_timer (s : St) (t : Nat) (tk : Task) (ht : s.tasks[t]? = some tk) {n i a d : Nat}
+    (hst : tk.st = .blocked (.sleep n i a d)) : Env s (s.setTask t { tk with st := .runnable .go }) := by
+  have hlt := getElem?_lt ht
+  refine ⟨rfl, rfl, rfl, rfl, rfl, rfl, by simp [St.setTask], ?_⟩
+  intro j tkj hj
+  rw [getElem?_close hlt]
+  split
+  · next h =>
+    subst h
+    rw [ht] at hj; cases hj
+    exact ⟨_, rfl, rfl, rfl, rfl, Or.inr ⟨_, hst, rfl, _, rfl⟩⟩
+  · exact ⟨tkj, hj, EnvTask.refl tkj⟩
+
 end MLPE.Eng
